@@ -27,7 +27,7 @@ EXPLANATION = ("add and pop_used are path-enumerated (loop-containing helpers ke
                "paths are checked effect-free; the capacity predicate is folded over all (SIZE<=16, in-use, #inputs, #outputs, "
                "indirect) combinations against the specification predicate; the consumption path is checked for order and "
                "provenance; free-running indices are checked for wrapping-only arithmetic in every queue function.")
-FLOORS = {'free_queries': 1, 'add_paths': 6, 'pop_paths': 3, 'capacity_rows': 1000, 'counter_ops': 4}
+FLOORS = {'free_queries': 1, 'add_paths': 2, 'pop_paths': 2, 'capacity_rows': 1000, 'counter_ops': 2}
 
 
 def counters_rule(F, R, rule):
